@@ -28,7 +28,9 @@ N = 3
 
 def containers(kind):
     base = list(gen.BOOL_CONTAINERS if kind == "bool" else gen.SPIN_CONTAINERS)
-    return base + ["dictperm", "dictrep", "dictdup"]
+    # "-supermap": a labelled model that carries a user-set mapping with one more label than it uses (a mapping shared by a
+    # family of models); the extra label is not a variable of the model
+    return base + ["dictperm", "dictrep", "dictdup"] + (["PUBO-supermap", "QUBO-supermap"] if kind == "bool" else ["PUSO-supermap", "QUSO-supermap"])
 
 
 def gen_cases(tier):
@@ -51,9 +53,11 @@ def gen_cases(tier):
                 deg = max((len(k) for k in D), default=0)
                 jd = rp.jdict(D)
                 for cont in containers(kind):
-                    if cont in gen.DEG2 and deg > 2:
+                    if cont.split("-")[0] in gen.DEG2 and deg > 2:
                         continue
-                    schemes = gen.MATRIX_SCHEMES if cont in gen.MATRIX else gen.LABELLED_SCHEMES
+                    if cont.endswith("-supermap") and not any(k for k in D):
+                        continue
+                    schemes = gen.MATRIX_SCHEMES if cont in gen.MATRIX else (gen.LABELLED_SCHEMES if not cont.endswith("-supermap") else ("str", "gap"))
                     for sch in schemes:
                         full = sch in ("int", "str") and cont in ("dict", "PUBO", "PUSO", "QUBOMatrix", "QUSOMatrix") \
                             and (len(D) - (() in D)) <= 2
@@ -77,6 +81,12 @@ def build_model(case):
         if spin:
             return {(k * 3 if len(k) == 1 else k): v for k, v in D.items()}, D
         return {(k * 2 if len(k) == 1 else k): v for k, v in D.items()}, D
+    if cont.endswith("-supermap"):
+        M = gen.build(cont.split("-")[0], D)
+        mp = M.mapping
+        mp["unused-extra-label"] = len(mp)
+        M.set_mapping(mp)
+        return M, D
     return gen.build(cont, D), D
 
 
